@@ -1,14 +1,33 @@
 (* C07 - Options given to a manifest reach its media requests with the same meaning.
    Gen/OptionsTable.v is regenerated from OptionsRepository of /repo on every run. *)
-From Verif Require Import Base.Tactics Base.ZList Base.Str Model.OptionsModel Proofs.OptionsProofs Gen.OptionsTable.
+From Verif Require Import Base.Tactics Base.ZList Base.Str Model.IsoTimeModel Model.OptionsModel Proofs.OptionsProofs Gen.OptionsTable.
 
 (* formatting a value to its URL text, carrying it through the query string and parsing it at
    the media endpoint is the identity - for every legal value (unbounded: every integer, every
-   URL-plain string and list of tokens) of the six proved kinds *)
+   URL-plain string and list of tokens, every error list with integer positions, every symbolic or date-time
+   availabilityStartTime with any UTC offset, every licence URL) of the nine kinds *)
 Theorem C07_roundtrip :
   forall k v, legal k v = true -> through_url k v = Some v.
 Proof. exact roundtrip. Qed.
 Print Assumptions C07_roundtrip.
+
+(* DRM selections: every list of (system, non-empty location set) comes back as its canonical form - itself, unless it
+   names every system with every location, which is written "all" and comes back in the repository's order - and the
+   canonical form lists exactly the same pairs *)
+Theorem C07_drm_roundtrip :
+  forall l, legal_drm l = true ->
+  through_url KDrm (VDrm l) = Some (VDrm (drm_canon l)) /\ forall i, In i (drm_canon l) <-> In i l.
+Proof. intros l H. split; [exact (drm_roundtrip l H)|exact (drm_canon_same l H)]. Qed.
+Print Assumptions C07_drm_roundtrip.
+
+(* licence URLs: ANY text arrives unchanged - reserved characters, '+' and '%XX' included (quote_plus on the way out,
+   one decoding by the query-string layer on the way in; the second decoding that from_string used to apply was a
+   defect, repaired in /repo) *)
+Theorem C07_url_any_text :
+  forall s, forallb is_byte s = true -> is_none_text s = false ->
+  through_url KUrl (VOptStr (Some s)) = Some (VOptStr (Some s)).
+Proof. intros s Hb Hn. apply roundtrip. cbn [legal]. rewrite Hb, Hn. reflexivity. Qed.
+Print Assumptions C07_url_any_text.
 
 (* every registered option has a recognised codec pair (finite: the generated table) ... *)
 Theorem C07_table_known :
@@ -19,9 +38,8 @@ Proof.
 Qed.
 Print Assumptions C07_table_known.
 
-(* ... and the options whose kind is NOT covered by C07_roundtrip are exactly these ten
-   (error lists, licence URLs, DRM selection, PlayReady version, availabilityStartTime): they are
-   decided by the differential round trip on the real codecs only *)
+(* ... and the options whose kind is NOT covered by C07_roundtrip / C07_drm_roundtrip are exactly these
+   (the PlayReady version, a float): decided by the differential round trip on the real codecs only *)
 Definition unproved_cgi : list str :=
   map (map (fun c => c)) (map o_cgi (filter (fun r => negb (proved_kind (o_kind r))) options_table)).
 Theorem C07_table_proved :
@@ -32,7 +50,7 @@ Proof.
   apply filter_In. split; [exact Hr|]. rewrite E. reflexivity.
 Qed.
 Print Assumptions C07_table_proved.
-Example C07_unproved_count : length unproved_cgi = 10%nat.
+Example C07_unproved_count : length unproved_cgi = 1%nat.
 Proof. vm_compute. reflexivity. Qed.
 
 (* an option is written into the URLs of media type m exactly when its usage mask contains m
